@@ -6,21 +6,18 @@ def run(ctx, replay=None):
     # which functions does the checker reject on the current source?  (search for the concrete function/path)
     names, rejected = [], []
     probe = ctx.path('probe.v')
-    open(probe, 'w').write('From Coq Require Import List String.\nFrom QV.Conc Require Import LockAst LockCheck.\nFrom QV.Gen Require Import LockAst.\n'
-                           'Eval vm_compute in map fst public_api.\n'
-                           'Eval vm_compute in map fst (filter (fun p => negb (lock_balanced (snd p) && balanced_at false (1, true) (snd p))) public_api).\n')
+    open(probe, 'w').write('From Coq Require Import List String.\nFrom QV.Conc Require Import LockAst LockCheck.\nFrom QV.Gen Require Import LockAst.\nLocal Open Scope string_scope.\n'
+                           'Eval vm_compute in String.concat "," (map fst public_api).\n'
+                           'Eval vm_compute in String.concat "," ("#" :: map fst (filter (fun p => negb (lock_balanced (snd p) && balanced_at false (1, true) (snd p))) public_api)).\n')
     ctx.coq_make(['Gen/LockAst.vo', 'Conc/LockCheck.vo'])
     rc, out = sh(['timeout', '300', 'coqc', '-q', '-Q', COQ, 'QV', 'probe.v'], cwd=ctx.scratch, timeout=320)
-    lists = re.findall(r'=\s*\[(.*?)\]\s*:\s*list string', out, re.S)
-    if len(lists) >= 2:
-        names = re.findall(r'"([^"]+)"', lists[0])
-        rejected = re.findall(r'"([^"]+)"', lists[1])
-    elif 'nil' in out or '= []' in out:
-        lists = re.findall(r'=\s*(\[.*?\]|nil)\s*:\s*list string', out, re.S)
-        names = re.findall(r'"([^"]+)"', lists[0]) if lists else []
-        rejected = re.findall(r'"([^"]+)"', lists[1]) if len(lists) > 1 else []
+    strs = re.findall(r'=\s*"([^"]*)"', out.replace('\n', ''))
+    strs = [re.sub(r'\s+', '', x) for x in strs]
+    if rc == 0 and len(strs) >= 2:
+        names = [x for x in strs[0].split(',') if x]
+        rejected = [x for x in strs[1].split(',') if x and x != '#']
     else:
-        ctx.broken.append(('obligation:probe', 'could not evaluate the checker:\n' + out[-1500:]))
+        ctx.broken.append(('obligation:probe', 'could not evaluate the checker on the translated functions:\n' + out[-1500:]))
     ctx.cov['evaluations'] = len(names)
     for n in names:
         ctx.distinct.add(n)
